@@ -1,0 +1,15 @@
+//go:build verif
+
+package tracer
+
+// The wire tracer picks its decompressor by encoding name (C20): a known name (any letter
+// case; empty means identity) gives an instance of the format of that name - the same
+// name-to-format table as the compression registry and the reference server's check - or
+// the sentinel that fails on first use; any other name gives the broken decompressor.
+
+//@ func GetDecompressor
+//@   modifies nothing
+//@   ensures @known forall f int :: 1 <= f && f <= 6 && compName(f) == strLower(encoding) ==> result != nil && (decFormat(result) == f || decFormat(result) == 0)
+//@   ensures @empty strLower(encoding) == "" ==> result != nil && decFormat(result) == 1
+//@   ensures @unknown strLower(encoding) != "" && strLower(encoding) != compName(1) && strLower(encoding) != compName(2) && strLower(encoding) != compName(3) &&
+//@        strLower(encoding) != compName(4) && strLower(encoding) != compName(5) && strLower(encoding) != compName(6) ==> typeis(result, brokenDecompressor)
